@@ -32,6 +32,7 @@ func init() {
 	vh.Register("c08", "record-storage", recordStorage)
 	vh.Register("c08", "replay-one", replayOne)
 	vh.Register("c08", "replay-readers", replayReaders)
+	vh.Register("c08", "replay-sessions", replaySessions)
 }
 
 // replayOne re-executes the input of a replay file written by bin/check
@@ -500,6 +501,294 @@ func replayStorage(args []string) error {
 	return res.Close(map[string]any{"vectors": n, "replayed": evals, "distinct_nontrivial": dd.N() - 1, "adds": adds})
 }
 
+// compareStorage: ds must be what a storage fed the records of the expected
+// well-formed lines is.
+func compareStorage(ds *hostsfile.DefaultStorage, exp []expLine, srcName string) (what string, err error) {
+	want, _ := hostsfile.NewDefaultStorage()
+	for _, x := range exp {
+		if x.Kind != "Accept" {
+			continue
+		}
+		a, aerr := netip.ParseAddr(x.Addr)
+		if aerr != nil {
+			return "", fmt.Errorf("spec says Accept but netip.ParseAddr rejects %q", x.Addr)
+		}
+		want.Add(&hostsfile.Record{Addr: a, Names: slices.Clone(x.Names), Source: srcName})
+	}
+	if !ds.Equal(want) {
+		return "the DefaultStorage filled by Parse differs (Equal) from one fed the records of the well-formed lines", nil
+	}
+	for _, x := range exp {
+		if x.Kind != "Accept" {
+			continue
+		}
+		a, _ := netip.ParseAddr(x.Addr)
+		if g, w := ds.ByAddr(a), want.ByAddr(a); !slices.Equal(g, w) {
+			return fmt.Sprintf("after Parse ByAddr(%v) = %q, want %q", a, g, w), nil
+		}
+		for _, n := range x.Names {
+			if g, w := ds.ByName(n), want.ByName(n); !slices.Equal(g, w) {
+				return fmt.Sprintf("after Parse ByName(%q) = %v, want %v", n, g, w), nil
+			}
+		}
+	}
+	return "", nil
+}
+
+// ================================================================== sessions
+
+// sessCall is one call of a HostsParseSeqGen.tla session.
+type sessCall struct {
+	S     []string       `json:"s"`
+	Cut   int            `json:"cut"`
+	Fault string         `json:"fault"`
+	At    int            `json:"at"`
+	Dst   string         `json:"dst"`
+	Ev    []parseLineOut `json:"ev"`
+	Res   string         `json:"res"`
+}
+
+type sessVec struct {
+	Calls []sessCall `json:"calls"`
+}
+
+var errReadFault = errors.New("injected reader failure")
+
+type addPanic struct{ n int }
+
+// failingReader delivers data through r and then fails with errReadFault
+// instead of reporting io.EOF.
+type failingReader struct{ r io.Reader }
+
+func (f *failingReader) Read(p []byte) (int, error) {
+	n, err := f.r.Read(p)
+	if err == io.EOF {
+		err = errReadFault
+	}
+	return n, err
+}
+
+type namedFailingReader struct {
+	failingReader
+	name string
+}
+
+func (r *namedFailingReader) Name() string { return r.name }
+
+// plainSet is a Set and nothing else; Add panics on call number panicAt.
+type plainSet struct {
+	adds    []*hostsfile.Record
+	panicAt int
+}
+
+func (s *plainSet) Add(r *hostsfile.Record) {
+	s.adds = append(s.adds, r)
+	if len(s.adds) == s.panicAt {
+		panic(addPanic{s.panicAt})
+	}
+}
+
+// panicHandleSet is a recording HandleSet whose Add panics on call panicAt.
+type panicHandleSet struct {
+	recSet
+	panicAt int
+}
+
+func (s *panicHandleSet) Add(r *hostsfile.Record) {
+	s.recSet.Add(r)
+	if len(s.adds) == s.panicAt {
+		panic(addPanic{s.panicAt})
+	}
+}
+
+func (c *sessCall) describe(data []byte) string {
+	f := ""
+	switch c.Fault {
+	case "readerr":
+		f = fmt.Sprintf(", reader fails after %d line(s)", c.At)
+	case "addpanic":
+		f = fmt.Sprintf(", Add panics on call %d", c.At)
+	}
+	return fmt.Sprintf("Parse(%s%s) of %s", c.Dst, f, strconv.QuoteToASCII(string(data)))
+}
+
+// runSessionCall executes one call and compares it with its own prediction.
+func runSessionCall(c *sessCall, rng *rand.Rand) (what string, data []byte, err error) {
+	data, parts, err := concretiseStream(rng, c.S, rng.IntN(2))
+	if err != nil {
+		return "", nil, err
+	}
+	exp, err := expectations(&parseVec{S: c.S, Ev: c.Ev}, parts)
+	if err != nil {
+		return "", data, err
+	}
+	cutBytes := 0
+	for _, p := range parts[:c.Cut] {
+		cutBytes += len(p)
+	}
+	named := rng.IntN(2) == 0
+	srcName := ""
+	if named {
+		srcName = "the-source"
+	}
+	f := randomFrag(rng, cutBytes)
+	var rd io.Reader = newReader(data[:cutBytes], f, srcName, named)
+	if c.Fault == "readerr" {
+		if named {
+			rd = &namedFailingReader{failingReader{rd}, srcName}
+		} else {
+			rd = &failingReader{rd}
+		}
+	}
+	panicAt := 0
+	if c.Fault == "addpanic" {
+		panicAt = c.At
+	}
+	var buf []byte
+	if rng.IntN(2) == 0 {
+		buf = make([]byte, 1+rng.IntN(100))
+	}
+	var adds []*hostsfile.Record
+	var invs []error
+	var invData [][]byte
+	var ds *hostsfile.DefaultStorage
+	var perr error
+	pv, panicked := vh.Try(func() {
+		switch c.Dst {
+		case "plain":
+			set := &plainSet{panicAt: panicAt}
+			defer func() { adds = set.adds }()
+			perr = hostsfile.Parse(set, rd, buf)
+		case "func":
+			n := 0
+			perr = hostsfile.Parse(hostsfile.FuncSet(func(r *hostsfile.Record) {
+				adds = append(adds, r)
+				if n++; n == panicAt {
+					panic(addPanic{panicAt})
+				}
+			}), rd, buf)
+		case "handle":
+			set := &panicHandleSet{panicAt: panicAt}
+			defer func() {
+				adds = set.adds
+				for _, r := range set.invs {
+					invs, invData = append(invs, r.err), append(invData, r.data)
+				}
+			}()
+			perr = hostsfile.Parse(set, rd, buf)
+		case "storage":
+			ds, _ = hostsfile.NewDefaultStorage()
+			perr = hostsfile.Parse(ds, rd, buf)
+		}
+	})
+	handle := c.Dst == "handle" || c.Dst == "storage"
+	switch c.Res {
+	case "panic":
+		if ap, ok := pv.(addPanic); !panicked || !ok || ap.n != panicAt {
+			return fmt.Sprintf("the panic of Add did not reach the caller (panicked=%v value=%v, returned %v)", panicked, pv, perr), data, nil
+		}
+		if len(adds) > 0 {
+			adds = adds[:len(adds)-1] // the call that panicked
+		}
+	default:
+		if panicked {
+			return fmt.Sprintf("Parse panicked: %v", pv), data, nil
+		}
+	}
+	switch c.Res {
+	case "scanning":
+		if perr == nil || !errors.Is(perr, errReadFault) {
+			return fmt.Sprintf("the reader failed but Parse returned %v", perr), data, nil
+		}
+	case "nil":
+		if perr != nil {
+			return fmt.Sprintf("Parse returned %v, want nil", perr), data, nil
+		}
+	case "joined":
+		if perr == nil {
+			return "Parse returned nil, the invalid lines must be joined in the error", data, nil
+		}
+	}
+	if c.Dst == "storage" {
+		what, err = compareStorage(ds, exp, srcName)
+		return what, data, err
+	}
+	if !handle {
+		// Without a HandleSet the invalid lines are only observable in the
+		// error of a call that ran to its end.
+		if c.Res == "scanning" || c.Res == "panic" {
+			onlyAdds := []expLine{}
+			for _, x := range exp {
+				if x.Kind == "Accept" {
+					onlyAdds = append(onlyAdds, x)
+				}
+			}
+			what, err = compareRun(onlyAdds, srcName, adds, nil, nil)
+			return what, data, err
+		}
+		for _, le := range lineErrors(perr, nil) {
+			invs = append(invs, le)
+		}
+		invData = nil
+	}
+	what, err = compareRun(exp, srcName, adds, invs, invData)
+	return what, data, err
+}
+
+func replaySessions(args []string) error {
+	if len(args) != 2 {
+		return fmt.Errorf("usage: replay-sessions <vectors> <result>")
+	}
+	if _, err := c07.GetTables(); err != nil {
+		return err
+	}
+	res, err := vh.NewResult(args[1])
+	if err != nil {
+		return err
+	}
+	var mu sync.Mutex
+	calls := 0
+	n, dd, err := c07.ParallelVectors(args[0], func(raw []byte) error {
+		var v sessVec
+		if err := json.Unmarshal(raw, &v); err != nil {
+			return err
+		}
+		// Two passes over the same session: whatever the library keeps between
+		// calls is most likely handed to the next call on the same goroutine.
+		for pass := 0; pass < 2; pass++ {
+			rng := c07.RandFor(raw, uint64(pass))
+			history := ""
+			for i := range v.Calls {
+				c := &v.Calls[i]
+				what, data, err := runSessionCall(c, rng)
+				if err != nil {
+					return err
+				}
+				desc := c.describe(data)
+				if what != "" {
+					key := fmt.Sprintf("session: call #%d %s", i+1, desc)
+					if history != "" {
+						key += " after " + history
+					}
+					res.Mismatch(key, what, map[string]any{"session": v.Calls, "failing_call": i + 1, "bytes": string(data)})
+				}
+				if history != "" {
+					history += "; "
+				}
+				history += fmt.Sprintf("#%d %s", i+1, desc)
+			}
+		}
+		mu.Lock()
+		calls += 2 * len(v.Calls)
+		mu.Unlock()
+		return nil
+	})
+	if err != nil {
+		return err
+	}
+	return res.Close(map[string]any{"vectors": n, "replayed": calls, "distinct_nontrivial": dd.N()})
+}
+
 // =================================================================== readers
 
 // rdVec is a vector of HostsReadersGen.tla.
@@ -788,6 +1077,11 @@ func fragmentations(L int, full bool, rng *rand.Rand) []frag {
 		fs = append(fs, frag{[]int{L / 2, 0, 0}, true, fmt.Sprintf("cut@%d,2 empty reads,+EOF", L/2)})
 	}
 	if !full {
+		// first fragments of 1, 2 and 3 bytes (a prefix such as a byte order
+		// mark split from what follows)
+		for c := 1; c <= 3 && c < L; c++ {
+			fs = append(fs, frag{[]int{c}, c%2 == 1, fmt.Sprintf("cut@%d", c)})
+		}
 		if L >= 2 {
 			c := 1 + rng.IntN(L-1)
 			fs = append(fs, frag{[]int{c}, rng.IntN(2) == 0, fmt.Sprintf("cut@%d", c)})
@@ -1066,35 +1360,7 @@ func runParse(kind string, data []byte, f frag, named bool, bufIdx int, exp []ex
 		if perr != nil {
 			return fmt.Sprintf("Parse into a DefaultStorage returned %v", perr), nil
 		}
-		want, _ := hostsfile.NewDefaultStorage()
-		for _, x := range exp {
-			if x.Kind != "Accept" {
-				continue
-			}
-			a, aerr := netip.ParseAddr(x.Addr)
-			if aerr != nil {
-				return "", fmt.Errorf("spec says Accept but netip.ParseAddr rejects %q", x.Addr)
-			}
-			want.Add(&hostsfile.Record{Addr: a, Names: slices.Clone(x.Names), Source: srcName})
-		}
-		if !ds.Equal(want) {
-			return "the DefaultStorage filled by Parse differs (Equal) from one fed the records of the well-formed lines", nil
-		}
-		for _, x := range exp {
-			if x.Kind != "Accept" {
-				continue
-			}
-			a, _ := netip.ParseAddr(x.Addr)
-			if g, w := ds.ByAddr(a), want.ByAddr(a); !slices.Equal(g, w) {
-				return fmt.Sprintf("after Parse ByAddr(%v) = %q, want %q", a, g, w), nil
-			}
-			for _, n := range x.Names {
-				if g, w := ds.ByName(n), want.ByName(n); !slices.Equal(g, w) {
-					return fmt.Sprintf("after Parse ByName(%q) = %v, want %v", n, g, w), nil
-				}
-			}
-		}
-		return "", nil
+		return compareStorage(ds, exp, srcName)
 	}
 	return "", fmt.Errorf("unknown destination kind %q", kind)
 }
@@ -1228,7 +1494,11 @@ func randomInput(rng *rand.Rand, tb *c07.Tables, maxLines int) []byte {
 		nl = rng.IntN(6)
 	}
 	crlf := rng.IntN(3) // 0: LF, 1: CRLF, 2: mixed
+	inv := tb.Entries("INV")
 	for i := 0; i < nl; i++ {
+		if (i == 0 && rng.IntN(4) == 0) || rng.IntN(30) == 0 {
+			b = append(b, inv[rng.IntN(len(inv))]...)
+		}
 		switch r := rng.IntN(40); {
 		case r < 4:
 			// empty line
